@@ -203,6 +203,16 @@ def explore(S, want=('C06',), per_kind=10, max_nodes=14, deep=False):
                     for c in n.children:
                         reg_nodes(c)
                 reg_nodes(root)
+                if 'C12' in want:
+                    # every nest() in the document is one indent unit (align / hang only come from comment.rs and carry no offset here)
+                    offs = D.indent_nest_offsets(d)
+                    ctx.must_hold(b_and(*[i_eq(o, cfg.fields[0], 64) for o in offs]), 'C12:nest-offset-differs-from-indent-unit',
+                                  lambda mdl: dict(kind=tree[0], source=src_text, tab=model_int(mdl, cfg.fields[0]),
+                                                   offsets=[(model_int(mdl, o) if is_sym(o) else o) for o in offs]))
+                    if offs:
+                        ctx.witness('nested')
+                    if want[0] == 'C12':
+                        return
                 # tokens and comments are compared separately: a comment may move across a token of its own construct
                 # (`not /* c */ in` -> `/* c */ not in`), which changes neither the tree nor the order of the comments
                 exp_toks, exp_cmts = expected_streams(tree)
